@@ -311,3 +311,69 @@ Definition relist_gone (listed : list (N * json)) (io : N * json) : list dstep :
 
 Definition relist (quiet : N -> bool) (store listed : list (N * json)) : list dstep :=
   flat_map (relist_live quiet store) listed ++ flat_map (relist_gone listed) store.
+
+(* ---- the saved-events window: eventCbEnabled / eventBuf ----
+   resource_informer.go.  A resourceInformer is created with eventCbEnabled = false.  The tail
+   of handleWatchEvent, for a KubeEvent that is to be fired:
+       ei.eventBufLock.Lock()
+       if ei.eventCbEnabled { ei.eventBufLock.Unlock(); ei.putEvent(kubeEvent) }
+       else { ei.eventBuf = append(ei.eventBuf, kubeEvent); ei.eventBufLock.Unlock() }
+   - the buffer APPENDS one event per passing delivery; nothing is compared with older entries -
+   and enableKubeEventCb (Monitor.EnableKubeEventCb, called by the unlock that follows the
+   binding's Synchronization):
+       if ei.eventCbEnabled { return }
+       ei.eventCbEnabled = true
+       for _, kubeEvent := range ei.eventBuf { ei.putEvent(kubeEvent) }
+       ei.eventBuf = nil
+   (getCachedObjects - Monitor.Snapshot() - also empties the buffer while the events are locked:
+   that is the Synchronization snapshot taking over what was saved before it, property C09's
+   window class; the operations modelled here are the deliveries and the unlock.)
+   [w_cache] cachedObjects, [w_enabled] eventCbEnabled, [w_buf] eventBuf in order.  Every
+   operation returns the events handed to the callback (putEvent) by it, in order. *)
+Record wstate := mkW { w_cache : cache; w_enabled : bool; w_buf : list event }.
+
+(* what happens to an informer: a delivery, or the unlock *)
+Inductive wop := WDeliver (s : dstep) | WUnlock.
+
+Definition opt_list {A} (o : option A) : list A := match o with Some a => [a] | None => [] end.
+
+Section Window.
+
+  Variable jq : json -> list json * bool.
+
+  Definition handle_w (cfg : config) (w : wstate) (t : evtype) (id : N) (d : delivery) : wstate * list event :=
+    let (c', ev) := handle_d jq cfg (w_cache w) t id d in
+    match ev with
+    | None => (mkW c' (w_enabled w) (w_buf w), [])
+    | Some e =>
+        if w_enabled w then (mkW c' true (w_buf w), [e])
+        else (mkW c' false (w_buf w ++ [e]), [])
+    end.
+
+  Definition enable_w (w : wstate) : wstate * list event :=
+    if w_enabled w then (w, []) else (mkW (w_cache w) true [], w_buf w).
+
+  Definition step_w (cfg : config) (w : wstate) (op : wop) : wstate * list event :=
+    match op with
+    | WDeliver (t, id, d) => handle_w cfg w t id d
+    | WUnlock => enable_w w
+    end.
+
+  Fixpoint run_w (cfg : config) (w : wstate) (ops : list wop) : list (wstate * list event) :=
+    match ops with
+    | [] => []
+    | op :: r => let (w', evs) := step_w cfg w op in (w', evs) :: run_w cfg w' r
+    end.
+
+  Definition final_w (cfg : config) (w : wstate) (ops : list wop) : wstate :=
+    fold_left (fun w op => fst (step_w cfg w op)) ops w.
+
+End Window.
+
+(* the deliveries among the operations *)
+Definition deliveries (ops : list wop) : list dstep :=
+  flat_map (fun op => match op with WDeliver s => [s] | WUnlock => [] end) ops.
+
+(* a window history: [h1] is delivered while the events are saved, then the unlock, then [h2] *)
+Definition window_ops (h1 h2 : list dstep) : list wop :=
+  map WDeliver h1 ++ WUnlock :: map WDeliver h2.
